@@ -120,12 +120,23 @@ structure Shr (k k' : K) : Prop where
   pend : ∀ a, PendFr (k.actor a).pending (k'.actor a).pending
   wd : ∀ a, (k.actor a).wannadie = true → (k'.actor a).wannadie = true
   wait : ∀ a, (k.actor a).waiting = [] → (k'.actor a).waiting = []
+  blk : ∀ a, (k.actor a).blocked = false → (k'.actor a).blocked = false
+  run : ∀ a ∈ k'.toRun, a ∈ k.toRun ∨ (k'.actor a).wannadie = true ∨ (k'.actor a).blocked = false
+  pnone : ∀ a, (k.actor a).pending = none → (k'.actor a).pending = none
 
-theorem Shr.refl (k : K) : Shr k k := ⟨List.Sublist.refl _, List.Sublist.refl _, rfl, rfl, rfl, fun _ => Or.inl rfl, fun _ h => h, fun _ h => h⟩
+theorem Shr.refl (k : K) : Shr k k := ⟨List.Sublist.refl _, List.Sublist.refl _, rfl, rfl, rfl, fun _ => Or.inl rfl, fun _ h => h, fun _ h => h, fun _ h => h,
+   fun _ h => Or.inl h, fun _ h => h⟩
 
 theorem Shr.trans {k1 k2 k3 : K} (h1 : Shr k1 k2) (h2 : Shr k2 k3) : Shr k1 k3 :=
   ⟨h2.timers.trans h1.timers, h2.heap.trans h1.heap, h2.nextT.trans h1.nextT, h2.sfk.trans h1.sfk,
-   h2.nact.trans h1.nact, fun a => (h1.pend a).trans (h2.pend a), fun a h => h2.wd a (h1.wd a h), fun a h => h2.wait a (h1.wait a h)⟩
+   h2.nact.trans h1.nact, fun a => (h1.pend a).trans (h2.pend a), fun a h => h2.wd a (h1.wd a h), fun a h => h2.wait a (h1.wait a h),
+   fun a h => h2.blk a (h1.blk a h), fun a ha => by
+     rcases h2.run a ha with h | h
+     · rcases h1.run a h with h' | h' | h'
+       · exact Or.inl h'
+       · exact Or.inr (Or.inl (h2.wd a h'))
+       · exact Or.inr (Or.inr (h2.blk a h'))
+     · exact Or.inr h, fun a h => h2.pnone a (h1.pnone a h)⟩
 
 theorem Shr.nimpl {k k' : K} (h : Shr k k') : k'.impls.length = k.impls.length := by
   have := congrArg List.length h.sfk; simpa using this
@@ -148,18 +159,22 @@ theorem Shr.kind {k k' : K} (h : Shr k k') (i : Nat) : (k'.impl i).kind = (k.imp
 
 /-- side condition of `shr_setActor` for a record update -/
 macro "fr_side" : tactic =>
-  `(tactic| (intro _; first | exact ⟨Or.inl rfl, fun h => h, fun h => h⟩ | exact ⟨Or.inr (Or.inl rfl), fun h => h, fun h => h⟩
-                            | exact ⟨Or.inl rfl, fun _ => rfl, fun h => h⟩ | exact ⟨Or.inr (Or.inl rfl), fun _ => rfl, fun h => h⟩
-                            | exact ⟨Or.inl rfl, fun h => h, fun h => by simp [h]⟩))
+  `(tactic| (intro _; first | exact ⟨Or.inl rfl, fun h => h, fun h => h, fun h => h, fun h => h⟩
+                            | exact ⟨Or.inr (Or.inl rfl), fun h => h, fun h => h, fun h => h, fun _ => rfl⟩
+                            | exact ⟨Or.inl rfl, fun h => h, fun h => h, fun _ => rfl, fun h => h⟩
+                            | exact ⟨Or.inl rfl, fun _ => rfl, fun h => h, fun h => h, fun h => h⟩
+                            | exact ⟨Or.inr (Or.inl rfl), fun _ => rfl, fun h => h, fun _ => rfl, fun _ => rfl⟩
+                            | exact ⟨Or.inl rfl, fun h => h, fun h => by simp [h], fun h => h, fun h => h⟩))
 
 /-- proves `Shr k k'` when k' is k after `setImpl` / `setActor` / record updates that filter heap or timers -/
 macro "shr_tac" : tactic =>
-  `(tactic| (refine ⟨?_, ?_, ?_, ?_, ?_, ?_, ?_, ?_⟩ <;> (try simp [K.setImpl, K.setActor, K.timerRemove, upd_length, K.actor]) <;>
-             (repeat rw [map_upd_inv]) <;> (try (intro _; first | rfl | exact Or.inl rfl | exact fun h => h))))
+  `(tactic| (refine ⟨?_, ?_, ?_, ?_, ?_, ?_, ?_, ?_, ?_, ?_, ?_⟩ <;> (try simp [K.setImpl, K.setActor, K.timerRemove, upd_length, K.actor]) <;>
+             (repeat rw [map_upd_inv]) <;> (try (intro _; first | rfl | exact Or.inl rfl | exact fun h => h | exact fun h => Or.inl h))))
 
 theorem shr_setActor (k : K) (a : Nat) (f : Actor → Actor)
     (hf : ∀ x, PendFr x.pending (f x).pending ∧ (x.wannadie = true → (f x).wannadie = true) ∧
-      (x.waiting = [] → (f x).waiting = [])) :
+      (x.waiting = [] → (f x).waiting = []) ∧ (x.blocked = false → (f x).blocked = false) ∧
+      (x.pending = none → (f x).pending = none)) :
     Shr k (k.setActor a f) :=
   ⟨List.Sublist.refl _, List.Sublist.refl _, rfl, rfl, by simp, fun b => by
     rw [actor_setActor]; split
@@ -169,21 +184,49 @@ theorem shr_setActor (k : K) (a : Nat) (f : Actor → Actor)
     · rename_i h; rw [h.1]; exact (hf _).2.1
     · exact fun h => h, fun b => by
     rw [actor_setActor]; split
-    · rename_i h; rw [h.1]; exact (hf _).2.2
+    · rename_i h; rw [h.1]; exact (hf _).2.2.1
+    · exact fun h => h, fun b => by
+    rw [actor_setActor]; split
+    · rename_i h; rw [h.1]; exact (hf _).2.2.2.1
+    · exact fun h => h, fun _ h => Or.inl h, fun b => by
+    rw [actor_setActor]; split
+    · rename_i h; rw [h.1]; exact (hf _).2.2.2.2
     · exact fun h => h⟩
 
 theorem shr_setImpl (k : K) (i : Nat) (f : Impl → Impl) (hf : ∀ x, (f x).sfk = x.sfk) : Shr k (k.setImpl i f) :=
-  ⟨List.Sublist.refl _, List.Sublist.refl _, rfl, by simp [K.setImpl, map_upd_inv _ _ _ _ hf], rfl, fun _ => Or.inl rfl, fun _ h => h, fun _ h => h⟩
+  ⟨List.Sublist.refl _, List.Sublist.refl _, rfl, by simp [K.setImpl, map_upd_inv _ _ _ _ hf], rfl, fun _ => Or.inl rfl, fun _ h => h, fun _ h => h, fun _ h => h,
+   fun _ h => Or.inl h, fun _ h => h⟩
 
 /-- generic introduction: same impls/actors tables, sublists of timers and heap -/
 theorem shr_of (k k' : K) (h1 : k'.timers.Sublist k.timers) (h2 : k'.heap.Sublist k.heap) (h3 : k'.nextT = k.nextT)
-    (h4 : k'.impls = k.impls) (h5 : k'.actors = k.actors) : Shr k k' :=
+    (h4 : k'.impls = k.impls) (h5 : k'.actors = k.actors) (h6 : k'.toRun = k.toRun := by rfl) : Shr k k' :=
   ⟨h1, h2, h3, by rw [h4], by rw [h5], fun a => by unfold K.actor; rw [h5]; exact Or.inl rfl,
-   fun a => by unfold K.actor; rw [h5]; exact fun h => h, fun a => by unfold K.actor; rw [h5]; exact fun h => h⟩
+   fun a => by unfold K.actor; rw [h5]; exact fun h => h, fun a => by unfold K.actor; rw [h5]; exact fun h => h,
+   fun a => by unfold K.actor; rw [h5]; exact fun h => h, fun a ha => by rw [h6] at ha; exact Or.inl ha,
+   fun a => by unfold K.actor; rw [h5]; exact fun h => h⟩
+
+theorem shr_clearRun (k : K) : Shr k { k with toRun := [] } :=
+  ⟨List.Sublist.refl _, List.Sublist.refl _, rfl, rfl, rfl, fun _ => Or.inl rfl, fun _ h => h, fun _ h => h,
+   fun _ h => h, fun b hb => by simp at hb, fun _ h => h⟩
+
+/-- a record update that appends `a` — dying or not in a simcall — to actors_to_run_ -/
+theorem shr_pushRun (k : K) (a : Nat) (h : (k.actor a).wannadie = true ∨ (k.actor a).blocked = false) :
+    Shr k { k with toRun := k.toRun ++ [a] } :=
+  ⟨List.Sublist.refl _, List.Sublist.refl _, rfl, rfl, rfl, fun _ => Or.inl rfl, fun _ h => h, fun _ h => h,
+   fun _ h => h, fun b hb => by
+     rcases List.mem_append.mp hb with hb | hb
+     · exact Or.inl hb
+     · simp only [List.mem_singleton] at hb; subst hb; exact Or.inr h, fun _ h => h⟩
 
 theorem shr_answer (k : K) (a : Nat) : Shr k (k.answer a) := by
   unfold K.answer; split
-  · exact (shr_setActor k a _ (by fr_side)).trans (shr_of _ _ (List.Sublist.refl _) (List.Sublist.refl _) rfl rfl rfl)
+  · refine (shr_setActor k a (fun x => { x with blocked := false }) (by fr_side)).trans (shr_pushRun _ a ?_)
+    right
+    rw [actor_setActor]; split
+    · rfl
+    · rename_i hb hn
+      simp only [true_and, Nat.not_lt] at hn
+      rw [actor_of_ge _ _ hn]; rfl
   · exact shr_of _ _ (List.Sublist.refl _) (List.Sublist.refl _) rfl rfl rfl
 
 theorem shr_unregister (k : K) (i a : Nat) : Shr k (k.unregister i a) := by
@@ -315,15 +358,36 @@ theorem shr_exit (k : K) (a : Nat) : Shr k (k.exit a) := by
   simp only []
   exact ((shr_setActor k a _ (by fr_side)).trans (shr_exitLoop _ a _)).trans (shr_foldl_cancel _ _)
 
-theorem shr_addToRun (k : K) (a : Nat) : Shr k (k.addToRun a) := by
+theorem shr_addToRun (k : K) (a : Nat) (h : (k.actor a).wannadie = true ∨ (k.actor a).blocked = false) :
+    Shr k (k.addToRun a) := by
   unfold K.addToRun; split
   · exact Shr.refl k
-  · exact shr_of _ _ (List.Sublist.refl _) (List.Sublist.refl _) rfl rfl rfl
+  · exact shr_pushRun k a h
+
+/-- after `exit()` the actor is dying (or does not exist) -/
+theorem exit_wd (k : K) (a : Nat) :
+    ((k.exit a).actor a).wannadie = true ∨ ((k.exit a).actor a).blocked = false := by
+  unfold K.exit
+  simp only []
+  by_cases ha : a < k.actors.length
+  · left
+    have s := (shr_exitLoop (k.setActor a fun x => { x with wannadie := true, res := Res.none }) a
+      ((k.setActor a fun x => { x with wannadie := true, res := Res.none }).actor a).waiting.length).trans
+      (shr_foldl_cancel (K.ownedBy ((k.setActor a fun x => { x with wannadie := true, res := Res.none }).exitLoop a
+        ((k.setActor a fun x => { x with wannadie := true, res := Res.none }).actor a).waiting.length) a) _)
+    exact s.wd a (by rw [actor_setActor_same _ _ _ ha])
+  · right
+    have s := ((shr_setActor k a (fun x => { x with wannadie := true, res := Res.none }) (by fr_side)).trans
+      (shr_exitLoop _ a
+      ((k.setActor a fun x => { x with wannadie := true, res := Res.none }).actor a).waiting.length)).trans
+      (shr_foldl_cancel (K.ownedBy ((k.setActor a fun x => { x with wannadie := true, res := Res.none }).exitLoop a
+        ((k.setActor a fun x => { x with wannadie := true, res := Res.none }).actor a).waiting.length) a) _)
+    exact s.blk a (by rw [actor_of_ge k a (by omega)]; rfl)
 
 theorem shr_kill (k : K) (a : Nat) : Shr k (k.kill a) := by
   unfold K.kill; split
   · exact Shr.refl k
-  · exact (shr_exit k a).trans (shr_addToRun _ a)
+  · exact (shr_exit k a).trans (shr_addToRun _ a (exit_wd k a))
 
 def K.dieK (k : K) (a : Nat) : K :=
   match (k.actor a).ktimer with
@@ -518,7 +582,12 @@ theorem outer_eq (s : St) : outer s =
 theorem shr_fire (k : K) (t : Timer) : Shr k (k.fire t) := by
   unfold K.fire
   split
-  · exact ((shr_exit k _).trans (shr_setActor _ _ _ (by fr_side))).trans (shr_addToRun _ _)
+  · rename_i a _
+    have s1 := shr_setActor (k.exit a) a (fun x => { x with ktimer := none }) (by fr_side)
+    refine ((shr_exit k a).trans s1).trans (shr_addToRun _ _ ?_)
+    rcases exit_wd k a with h | h
+    · exact Or.inl (s1.wd a h)
+    · exact Or.inr (s1.blk a h)
   · simp only []
     split
     · exact shr_setActor _ _ _ (by fr_side)
@@ -532,29 +601,5 @@ theorem shr_foldl_kill (l : List Nat) (k : K) : Shr k (l.foldl (fun k a => k.kil
   induction l generalizing k with
   | nil => exact Shr.refl k
   | cons x xs ih => exact (shr_kill k x).trans (ih _)
-
-theorem shr_slice (a : Nat) (fuel : Nat) (k : K) (evs : List Ev) : Shr k (k.slice a fuel evs).1 := by
-  refine slice_ind a (fun k' => Shr k k') (fun k' => Shr k k') ?_ ?_ ?_ ?_ (fun _ h => h) fuel k evs (Shr.refl k)
-  · intro k' f h hf
-    refine h.trans (shr_setActor _ _ _ ?_)
-    cases hf <;> fr_side
-  · intro k' r b h hr _
-    exact h.trans (shr_setActor _ _ _ (by intro _; exact ⟨Or.inr (Or.inr ⟨r, rfl, hr⟩), fun h => h, fun h => h⟩))
-  · intro k' s h
-    exact h.trans (shr_of _ _ (List.Sublist.refl _) (List.Sublist.refl _) rfl rfl rfl)
-  · intro k' h
-    exact h.trans (shr_die _ _ _)
-
-theorem shr_runAll (l : List Nat) (k : K) (evs : List Ev) : Shr k (runAll k l evs).1 := by
-  induction l generalizing k evs with
-  | nil => exact Shr.refl k
-  | cons a rest ih =>
-    unfold runAll
-    simp only []
-    split
-    · split
-      · exact (shr_die k a true).trans (ih _ _)
-      · exact ih _ _
-    · exact (shr_slice a _ k []).trans (ih _ _)
 
 end SgVerif.TimeCore
